@@ -722,6 +722,21 @@ def body_pair(rng, ka, kb, small=True):
     r = rng.random()
     if ka == "PH" and kb == "PH" and rng.random() < 0.04:
         return slab_box_pair(rng), "common-part-is-the-minus1-minus2-slab-cube"
+    if ka == "PH" and kb == "PH" and rng.random() < 0.08:
+        # a body inscribed in another: the hull of a few boundary points (vertices, edge points, face points) of a, so that
+        # it lies inside a and touches a's boundary in vertices / along edges / in face parts only
+        a = rand_obj(rng, "PH", small)
+        fp = feature_points(a)
+        pool = []
+        for cls, pts in fp.items():
+            if cls != "interior":
+                pool += list(pts)
+        pool = list(dict.fromkeys(pool))
+        if len(pool) >= 5:
+            for _ in range(6):
+                b = K.hull3d(rng.sample(pool, rng.randint(4, min(6, len(pool)))))
+                if b is not None and ok_coords(b, 64, 40):
+                    return ((a, b) if rng.random() < 0.7 else (b, a)), "inscribed"
     if rng.random() < 0.12:
         mk = lambda k: int_box(rng) if k == "PH" else int_rect(rng)
         return (mk(ka), mk(kb)), "small-integer-boxes"
